@@ -4843,6 +4843,8 @@ type enterFinally struct{}
 func (enterFinally) exec(vm *vm) {
 	tf := &vm.tryStack[len(vm.tryStack)-1]
 	tf.finallyPos = -1
+	// the try and catch blocks are done: an exception thrown by the finally block is not for this catch
+	tf.catchPos = -1
 	vm.pc++
 }
 
